@@ -18,7 +18,7 @@ import stat as _stat
 import sys
 from datetime import datetime as _real_datetime
 
-WORLD_ROOTS = ("cwd", "tmp", "alt-tmp", "in")
+WORLD_ROOTS = ("cwd", "tmp", "alt-tmp", "in", "tmp-real")
 NAME_ALPHABET = "abcdefghijklmnopqrstuvwxyz0123456789_"
 PROBE_PREFIX = "pr0be"  # names of tempfile's own writability probe (tempfile._get_default_tempdir)
 
